@@ -302,3 +302,41 @@ def parse_row(row: bytes, intern, skin=None):
 
 def public(row):
     return {k: v for k, v in row.items() if not k.startswith("_")}
+
+
+# ---- git's own colouring (color.ui=always) ----------------------------------------------------------
+
+def colourise(hist, texts, variant=0):
+    """Colour concrete lines the way git does with its default palette. Variants differ in reset form
+    (ESC[m / ESC[0m), in per-marker vs per-line colouring, and in whitespace-error highlighting."""
+    R = "\x1b[m" if variant % 2 == 0 else "\x1b[0m"
+    out = []
+    for l, t in zip(hist, texts):
+        c = l["c"]
+        if c == "commit":
+            out.append("\x1b[33m" + t + R)
+        elif c in ("diff", "index", "newfile", "delfile", "simil", "renfrom", "rento", "copyfrom", "copyto", "oldmode",
+                   "newmode", "mmm", "ppp"):
+            out.append("\x1b[1m" + t + R)
+        elif c == "hh":
+            i = t.index(" @@") + 3
+            out.append("\x1b[36m" + t[:i] + R + t[i:])
+        elif c == "minus":
+            if variant // 2 % 2 == 0:
+                out.append("\x1b[31m" + t + R)
+            else:
+                out.append("\x1b[31m-" + R + "\x1b[31m" + t[1:] + R)
+        elif c == "plus":
+            body = t[1:]
+            stripped = body.rstrip(" \t")
+            ws = body[len(stripped):]
+            if variant // 2 % 2 == 0:
+                s = "\x1b[32m+" + stripped + R if not ws else "\x1b[32m+" + stripped + R + "\x1b[41m" + ws + R
+            else:
+                s = "\x1b[32m+" + R + "\x1b[32m" + stripped + R + ("\x1b[41m" + ws + R if ws else "")
+            out.append(s)
+        elif c == "nonl":
+            out.append("\x1b[31m" + t + R) if variant % 3 == 0 else out.append(t)
+        else:
+            out.append(t)
+    return out
